@@ -235,6 +235,19 @@ pub fn signal_send_action() {
     NEST_RAN.fetch_add(1, Ordering::Relaxed);
 }
 
+struct DoneOnUnwind {
+    done: Arc<AtomicU64>,
+    armed: bool,
+}
+
+impl Drop for DoneOnUnwind {
+    fn drop(&mut self) {
+        if self.armed {
+            self.done.fetch_add(1, Ordering::SeqCst);
+        }
+    }
+}
+
 #[derive(Clone, Debug)]
 pub struct HistCfg {
     pub producers: usize,
@@ -286,11 +299,14 @@ pub fn run_history(cfg: &HistCfg) -> HistOut {
                 crate::pool::add_target(0);
             }
             b.wait();
+            // a worker that panics inside the channel still counts as finished (its join reports the panic)
+            let mut dg = DoneOnUnwind { done: done.clone(), armed: true };
             let mut sent = Vec::new();
             for _ in 0..c.sends_per {
                 sent.push(do_send(&ch, Val::new(c.heap)));
             }
             director::lib_exit();
+            dg.armed = false;
             done.fetch_add(1, Ordering::SeqCst);
             while c.signal != 0 && !exit_ok.load(Ordering::SeqCst) {
                 std::thread::yield_now();
@@ -314,6 +330,7 @@ pub fn run_history(cfg: &HistCfg) -> HistOut {
                 crate::pool::add_target(0);
             }
             b.wait();
+            let mut dg = DoneOnUnwind { done: done.clone(), armed: true };
             let mut got = Vec::new();
             for _ in 0..cf.recvs_per {
                 if let Some(id) = do_recv(&ch) {
@@ -321,6 +338,7 @@ pub fn run_history(cfg: &HistCfg) -> HistOut {
                 }
             }
             director::lib_exit();
+            dg.armed = false;
             done.fetch_add(1, Ordering::SeqCst);
             while cf.signal != 0 && !exit_ok.load(Ordering::SeqCst) {
                 std::thread::yield_now();
